@@ -1,18 +1,24 @@
 """C01 — print -> parse identity (XML, JSON, LYB)."""
-from checks import textcomp
+from checks import textcomp, rtcomp, rtxcomp, lybcomp
 
-LEAN_TARGETS = ["LyModel.Props.C01"]
+LEAN_TARGETS = ["LyModel.Props.C01", "LyModel.Props.C01Lyb"]
 AUDIT = "Audit/C01.lean"
-ASSUMPTIONS = ["see DESIGN.md §5 C01"]
+GENERATED = ["XmlEsc", "JsonEsc", "Consts", "LybConsts"]
+ASSUMPTIONS = ["theorems cover the value-text layer (escaping/lexing of every string); the tree walk, with-defaults filtering and LYB framing are "
+               "exercised as laws on the implementation over generated schemas and trees (api_rt), see DESIGN.md §5 C01"]
+TRUSTED = ["Python renderers in tools/checks/rtcomp.py as the independent XML / RFC 7951 JSON encoder"]
 
 
 def classify(component, what, case):
-    return textcomp_classify(component, what, case)
-
-
-def textcomp_classify(component, what, case):
-    return None
+    if component == "rt":
+        return rtcomp.classify(component, what, case)
+    if component == "rtx":
+        return rtxcomp.classify(component, what, case)
+    return lybcomp.classify(component, what, case)
 
 
 def run(cx):
     textcomp.run_text(cx, want=("xml", "json"), law=("roundtrip",))
+    rtcomp.run_rt(cx, laws=("roundtrip",))
+    rtxcomp.run_rtx(cx, laws=("roundtrip",))
+    lybcomp.run_lyb(cx)
